@@ -66,6 +66,7 @@ struct Ctx {
     ret_err: String,          // the error type named in the function's `Result<_, E>` return type (source spelling)
     tail_call: std::cell::Cell<bool>,                  // the expression being translated is the value of the enclosing function / closure
     top_last: std::cell::Cell<*const Stmt>,            // the last statement of the body of the function / closure being translated
+    fn_tail: std::cell::Cell<bool>,                    // the `match` being translated is in tail position of the function (an arm `return X` has the value X)
     assoc_out: String,        // trait impls: the Lean type of `Self::Output`
     rng: String,              // `fn random<R: Rng>(rng: &mut R)`: the name of the generator parameter (a script of `u64` draws, threaded)
     rng_ty: String,           // .. and of its type parameter
@@ -989,7 +990,7 @@ fn stmts(cx: &Ctx, ss: &[Stmt], ind: usize, tail: Option<&str>) -> R<String> {
                     }
                     if let Expr::Match(mm) = &*init.expr {
                         // `let v = match e { Some(a) => a, None => return };`
-                        if mm.arms.len() == 2 && cx.unit_ret {
+                        if mm.arms.len() == 2 && cx.unit_ret && mm.arms.iter().all(|a| a.guard.is_none()) {
                             let some_arm = mm.arms.iter().find(|a| matches!(&a.pat, Pat::TupleStruct(ts) if path_str(&ts.path) == "Some"));
                             let none_arm = mm.arms.iter().find(|a| matches!(&a.pat, Pat::Ident(i) if i.ident == "None") || matches!(&a.pat, Pat::Path(pp) if path_str(&pp.path) == "None"));
                             if let (Some(sa), Some(na)) = (some_arm, none_arm) {
@@ -1033,7 +1034,10 @@ fn stmts(cx: &Ctx, ss: &[Stmt], ind: usize, tail: Option<&str>) -> R<String> {
                 Expr::Return(r) if matches!(r.expr.as_deref(), Some(Expr::Match(_))) => {
                     // `return match .. { .. };`
                     let Some(Expr::Match(mm)) = r.expr.as_deref() else { unreachable!() };
-                    let v = match_expr(cx, mm, ind)?;
+                    let saved_tail = cx.fn_tail.replace(true);
+                    let v = match_expr(cx, mm, ind);
+                    cx.fn_tail.set(saved_tail);
+                    let v = v?;
                     flush(cx, &pad, &mut out);
                     write!(out, "{}({})", pad, v.trim_start()).unwrap();
                     return Ok(out);
@@ -1257,7 +1261,13 @@ fn stmts(cx: &Ctx, ss: &[Stmt], ind: usize, tail: Option<&str>) -> R<String> {
                 }
                 Expr::Match(_) if last && cx.some_tail => return Err("match as the value of an Option-valued block".into()),
                 Expr::Match(m) if last => {
-                    let v = match_expr(cx, m, ind)?;
+                    // tail position of the function: the last statement of the function body, or the last statement of an arm
+                    // block of such a match
+                    let is_tail = std::ptr::eq(st as *const Stmt, cx.top_last.get());
+                    let saved_tail = cx.fn_tail.replace(is_tail);
+                    let v = match_expr(cx, m, ind);
+                    cx.fn_tail.set(saved_tail);
+                    let v = v?;
                     flush(cx, &pad, &mut out);
                     write!(out, "{}", v).unwrap();
                     return Ok(out);
@@ -1392,6 +1402,9 @@ fn match_expr(cx: &Ctx, m: &ExprMatch, ind: usize) -> R<String> {
             Pat::TupleStruct(ts) if path_str(&ts.path) == "Some" => Ok(format!("some {}", pat_str(&ts.elems[0])?)),
             Pat::Ident(i) if i.ident == "None" => Ok("none".into()),
             Pat::Path(pp) if path_str(&pp.path) == "None" => Ok("none".into()),
+            // `Result` is `Except`
+            Pat::TupleStruct(ts) if path_str(&ts.path) == "Ok" && ts.elems.len() == 1 => Ok(format!("Except.ok {}", pat_str(&ts.elems[0])?)),
+            Pat::TupleStruct(ts) if path_str(&ts.path) == "Err" && ts.elems.len() == 1 => Ok(format!("Except.error {}", pat_str(&ts.elems[0])?)),
             _ => Err("match pattern".to_string()),
         }
     }
@@ -1403,9 +1416,24 @@ fn match_expr(cx: &Ctx, m: &ExprMatch, ind: usize) -> R<String> {
         }
     }
     for arm in &m.arms {
+        // a guard restricts the arm: dropping it would change the meaning
+        if arm.guard.is_some() { return Err("match guard".into()); }
         let pats = pat_top(cx, &arm.pat)?;
-        let body = match &*arm.body {
-            Expr::Block(b) => stmts(cx, &b.block.stmts, ind + 4, None)?,
+        // an arm that is `return X` (the match is in tail position of the function: `match_expr` is only used for the last
+        // statement of a function body / `return match`, and for the arms `desugar.rs` creates there): its value is X
+        let is_tail = cx.fn_tail.get();
+        let arm_body: &Expr = match &*arm.body { Expr::Return(r) if r.expr.is_some() && is_tail => r.expr.as_deref().unwrap(), o => o };
+        let body = match arm_body {
+            Expr::Block(b) => {
+                // inside the arm block only its last statement inherits the tail position (`top_last` = the statement whose
+                // value is the value of the function)
+                let saved_last = cx.top_last.get();
+                if is_tail { cx.top_last.set(b.block.stmts.last().map_or(std::ptr::null(), |x| x as *const Stmt)); }
+                let r = stmts(cx, &b.block.stmts, ind + 4, None);
+                cx.top_last.set(saved_last);
+                cx.fn_tail.set(is_tail);
+                r?
+            }
             o => {
                 // an arm is its own scope for hoisted binds
                 let saved: Vec<(String, String)> = cx.binds.borrow_mut().drain(..).collect();
@@ -1691,7 +1719,7 @@ fn translate_fn(t0: &Target, m: &ImplItemFn, assoc_err: &str, assoc_out: Option<
     let cx = Ctx { self_ty: self_lean.clone(), mono: t.mono.map(|s| s.to_string()), ret_option, outcome, mut_self: mut_self && !unit_ret, fresh: std::cell::Cell::new(0), binds: Default::default(), uninit: Default::default(),
                    ret_result, err_ty: err_ty_of(t.file).to_string(), group_vars: Default::default(), ns: t.lean_ns.to_string(), lib, elem, unit_ret,
                    try_scope: Default::default(), tries: Default::default(), some_tail: false, ind: Default::default(), assoc_err: assoc_err.replace("::", "."), ret_err,
-                   tail_call: Default::default(), top_last: std::cell::Cell::new(m.block.stmts.last().map_or(std::ptr::null(), |x| x as *const Stmt)),
+                   tail_call: Default::default(), fn_tail: Default::default(), top_last: std::cell::Cell::new(m.block.stmts.last().map_or(std::ptr::null(), |x| x as *const Stmt)),
                    assoc_out: String::new(), rng, rng_ty };
     let cx = match assoc_out { Some(ty) => { let o = ty_name(ty, &cx)?; Ctx { assoc_out: o, ..cx } } None => cx };
     if !cx.rng.is_empty() && (cx.outcome || mut_self) { return Err("random generator in an Outcome / `&mut self` function".into()); }
@@ -1725,6 +1753,7 @@ fn translate_fn(t0: &Target, m: &ImplItemFn, assoc_err: &str, assoc_out: Option<
         let mut out = String::new();
         let Some(Stmt::Expr(Expr::Match(mm), _)) = m.block.stmts.last() else { return Err("frobenius_map shape".into()) };
         for arm in &mm.arms {
+            if arm.guard.is_some() { return Err("match guard".into()); }
             if let Pat::Lit(l) = &arm.pat {
                 let k = match &l.lit { Lit::Int(i) => i.base10_digits().to_string(), _ => return Err("arm literal".into()) };
                 let body = expr(&cx, &arm.body)?;
